@@ -845,7 +845,8 @@ def _quant_genexp(ex, name, ge, node, st):
 def _method(ex, f: ast.Attribute, node, st):
     name = f.attr
     # module functions
-    if isinstance(f.value, ast.Name) and f.value.id == "copy" and f.value.id not in st.env and name == "copy":
+    modname = getattr(ex, "aliases", {}).get(f.value.id, f.value.id) if isinstance(f.value, ast.Name) else None
+    if modname == "copy" and f.value.id not in st.env and name == "copy":
         v = T.opt_inner(ex.ev(node.args[0], st))
         if not isinstance(v.ty, T.Ref):
             raise Unsupported("copy.copy of a non-object", node)
@@ -854,7 +855,7 @@ def _method(ex, f: ast.Attribute, node, st):
             if fk.startswith(v.ty.cls + "."):
                 ex.h.set_field(st, o, fk, fty, ex.h.get_field(st, v.t, fk, fty))      # shallow: references are shared
         return V(v.ty, [o])
-    if isinstance(f.value, ast.Name) and f.value.id == "math" and f.value.id not in st.env:
+    if modname == "math" and f.value.id not in st.env:
         v = ex.ev(node.args[0], st)
         x = to_real(ex.num(v))
         if name == "ceil":
